@@ -115,6 +115,12 @@ CHECKS = {
         "and sampled pairs through the real PathSelector with two --path patterns.",
    note="bounded: <= 3 tokens, <= 4 characters (the property's 5 tokens / 4 components are not reached exhaustively); `!(..)` and newline outside",
    tech="TLC bounded-exhaustive evaluation of a reference matcher spec + vector replay through the real matcher"),
+ "C17": dict(cat="model_checking", sec="5 C17",
+   text="ShellWords.tla states, at the level of 20 symbol classes, which quoting style `quote` picks and under which condition each style is taken literally by bash (unquoted specials, word-initial "
+        "# and ~, ' inside '..', invalid bytes in lossy output); TLC checks QuoteIsLossless for every word up to the bound (it exposed the missing ~). Every enumerated word, lists of 2-3 words and "
+        "seeded long random byte strings go through the real join -> split (must return the same bytes; a panic is reported) and through real bash (printf %s\\0; must print the same bytes).",
+   note="bash 5.2 non-interactive, empty cwd, HOME=/nonexistent-home; identity through two real decoders is the oracle, the model supplies enumeration and the style conditions",
+   tech="TLC model checking of the quoting-style conditions + bounded-exhaustive replay through the real functions and bash"),
 }
 
 def main():
